@@ -114,6 +114,29 @@ def dAddAssign (env : Env) (N : Nat) (sub : Bool) (dst a : DCt) : Outcome DCt :=
   withMeta (addCtAssign env dst.ct a.ct) fun m =>
     bind (glweNormalizeAssign N g1) fun g' => .ok ⟨g', m⟩
 
+/-! ## ZNX plaintext addends (`leveled/default/{add,sub}.rs`, `pt_znx.rs`) -/
+
+/-- `vec_znx_rsh_add_into(base2k, k, res.data, 0, pt.data, 0)` / `vec_znx_rsh_sub`: the body column only -/
+def glweRshAcc (N : Nat) (sub : Bool) (k : Nat) (res : GLWE) (pg : Col) : Outcome GLWE :=
+  selfCol (fun ri => if sub then rshSubCol res.base2k k ri pg N else rshAddCol res.base2k k ri pg N) 0 res
+
+/-- `ckks_{add,sub}_pt_vec_znx_assign(dst, pt)`; `pg` = the limbs of the ZNX plaintext (one column).
+Plaintext construction and the radix / alignment checks come first; then the fused right shift by
+`ptShift`, then `glwe_normalize_assign`. -/
+def dAddPtAssign (env : Env) (N : Nat) (sub : Bool) (c : DCt) (pt : Pt) (pg : Col) : Outcome DCt :=
+  withMeta (withPt env pt c.ct (addPtZnxAssign env c.ct pt)) fun m =>
+    bind (glweRshAcc N sub (ptShift c.ct pt) c.g pg) fun g1 =>
+    bind (glweNormalizeAssign N g1) fun g' => .ok ⟨g', m⟩
+
+/-- `ckks_{add,sub}_pt_vec_znx_into(dst, a, pt)`: budget check, aligned copy of `a` (`glwe_lsh`), then the
+in-place form on the copy -/
+def dAddPtInto (env : Env) (N : Nat) (sub : Bool) (dst a : DCt) (pt : Pt) (pg : Col) : Outcome DCt :=
+  withMeta (withPt env pt dst.ct (shiftInto env dst.ct a.ct 0)) fun m1 =>
+    bind (glweLsh N dst.g a.g (unaryShift env dst.ct a.ct 0)) fun g1 =>
+    withMeta (ptAlign env ⟨m1, g1.size⟩ pt) fun m =>
+      bind (glweRshAcc N sub (ptShift ⟨m1, g1.size⟩ pt) g1 pg) fun g2 =>
+      bind (glweNormalizeAssign N g2) fun g' => .ok ⟨g', m⟩
+
 /-! ## straight-line programs over a pool of ciphertexts with data (linear fragment) -/
 
 /-- the operations that have a data path here; `toOp` is the call of the metadata model -/
@@ -129,6 +152,8 @@ inductive LOp where
   | rescale (d k a : Nat)
   | rescaleAssign (d k : Nat)
   | align (a b : Nat)
+  | addPt (sub : Bool) (d a : Nat) (pt : Pt) (pg : Col)
+  | addPtAssign (sub : Bool) (d : Nat) (pt : Pt) (pg : Col)
 deriving Repr, DecidableEq
 
 /-- the API call as the metadata model sees it (`add` and `sub` have one metadata behaviour) -/
@@ -144,6 +169,8 @@ def LOp.toOp : LOp → Op
   | .rescale d k a => .rescale d k a
   | .rescaleAssign d k => .rescaleAssign d k
   | .align a b => .align a b
+  | .addPt _ d a pt _ => .addPtZnx d a pt
+  | .addPtAssign _ d pt _ => .addPtZnxAssign d pt
 
 abbrev DPool := List DCt
 
@@ -187,6 +214,8 @@ def dstep (env : Env) (N : Nat) (pool : DPool) : LOp → Outcome DPool
         dput pool b (dRescaleAssign env N cb (cb.md.logBudget - ca.md.logBudget))
       else dput pool a (dRescaleAssign env N ca (ca.md.logBudget - cb.md.logBudget))
     | _, _ => .err Err.badSlot.toString
+  | .addPt sub d a pt pg => dop2 pool d a (fun cd ca => dAddPtInto env N sub cd ca pt pg)
+  | .addPtAssign sub d pt pg => dop1 pool d (fun cd => dAddPtAssign env N sub cd pt pg)
 
 /-- the pool a call leaves behind when it returns `Err`: `ckks_add_into` / `ckks_sub_into` run their data path
 before the budget check, so the destination holds the un-normalised aligned sum under its old metadata; every
@@ -201,6 +230,16 @@ def dstepErrPool (env : Env) (N : Nat) (pool : DPool) : LOp → DPool
         | .ok g1 => pool.set d ⟨g1, cd.md⟩
         | _ => pool
     | _, _, _ => pool
+  | .addPt _ d a pt _ =>
+    -- the alignment check of the plaintext comes after the aligned copy of `a`
+    match pool[d]?, pool[a]? with
+    | some cd, some ca =>
+      if d = a then pool
+      else
+        match withPt env pt cd.ct (shiftInto env cd.ct ca.ct 0), glweLsh N cd.g ca.g (unaryShift env cd.ct ca.ct 0) with
+        | .ok m1, .ok g1 => pool.set d ⟨g1, m1.md⟩
+        | _, _ => pool
+    | _, _ => pool
   | _ => pool
 
 /-- a straight-line program, stopping at the first call that is not `Ok` -/
